@@ -55,12 +55,13 @@ type cell struct {
 }
 
 type allow struct {
-	Target   string   `json:"target"`
-	Engines  []string `json:"engines"`
-	Year     int      `json:"year"`
-	Override string   `json:"override"`
-	Allowed  []string `json:"allowed"`
-	set      map[string]bool
+	Target     string   `json:"target"`
+	Engines    []string `json:"engines"`
+	Year       int      `json:"year"`
+	Override   string   `json:"override"`
+	Allowed    []string `json:"allowed"`
+	Consistent bool     `json:"consistent"`
+	set        map[string]bool
 }
 
 func (a *allow) name() string {
@@ -220,7 +221,10 @@ var reRowStart = regexp.MustCompile(`^\t([A-Z][A-Za-z0-9]*): \{$`)
 var reEngineRow = regexp.MustCompile(`^\t\t([A-Za-z]+):\s+\{(.*)\},$`)
 var reVer = regexp.MustCompile(`start: v\{(\d+), (\d+), (\d+)\}(?:, end: v\{(\d+), (\d+), (\d+)\})?`)
 
-type verRange struct{ s, e [3]int; hasEnd bool }
+type verRange struct {
+	s, e   [3]int
+	hasEnd bool
+}
 
 func parseTable(repo string) (keyOf map[string]string, rows map[string]map[string][]verRange, err error) {
 	b, err := os.ReadFile(filepath.Join(repo, "internal", "compat", "js_table.go"))
@@ -455,6 +459,7 @@ func Run(r *core.Run) {
 
 	// the jobs: cell x target x override (none, each used feature on/off) x stage
 	var jobs []*job
+	inconsistent := 0
 	for _, c := range cells {
 		// quick: the targets around the feature's year, the extremes and one engine list; 3 stages
 		ts := targetNames
@@ -492,6 +497,10 @@ func Run(r *core.Run) {
 					r.Infra("no allowed set for target %s override %s", t, ov)
 					continue
 				}
+				if !a.Consistent {
+					inconsistent++ // contradictory configuration (spec: Consistent): not part of the matrix
+					continue
+				}
 				nt := false
 				for _, u := range c.Uses {
 					if !a.set[u] {
@@ -510,6 +519,7 @@ func Run(r *core.Run) {
 		}
 	}
 	r.Set("matrix_cells", len(jobs))
+	r.Set("contradictory_configurations_skipped", inconsistent)
 	r.Logf("%d cells, %d allowed sets, %d matrix cells to build", len(cells), len(allows), len(jobs))
 
 	// build
@@ -582,6 +592,20 @@ func Run(r *core.Run) {
 	})
 	r.Logf("parsed %d distinct outputs", len(items))
 
+	// what the same cell and stage contains when nothing has to be lowered (target esnext, no
+	// override): a feature that is absent there was removed by something else (e.g. folding)
+	type bk struct{ cell, stage string }
+	baseline := map[bk]map[string]bool{}
+	for i, o := range outs {
+		if o.j.a.Target == "esnext" && o.j.a.Override == "none" && itemOf[i] >= 0 {
+			m := map[string]bool{}
+			for _, f := range dets[itemOf[i]].Features {
+				m[f] = true
+			}
+			baseline[bk{o.j.c.Feature + "/" + o.j.c.Position, o.j.st.Name}] = m
+		}
+	}
+
 	// judge
 	var cannotParse, passedThrough, warnedPass int
 	perFeature := map[string]int{}
@@ -633,7 +657,9 @@ func Run(r *core.Run) {
 				fmt.Sprintf("%s: output does not parse as ECMAScript %d: %s", j.id, j.a.Year, d.ParseErr), detail)
 		}
 		// a feature forced on must be passed through (checked where no other stage consumes it)
-		if j.ovF == j.c.Feature && j.ovB && !j.st.Bundle && (j.st.Format == "" || j.st.Format == "esm") {
+		// (ES-year targets only: for engine lists the spec only has an upper bound of the engine's syntax)
+		if base := baseline[bk{j.c.Feature + "/" + j.c.Position, j.st.Name}]; j.ovF == j.c.Feature && j.ovB && j.a.Target != "" && base[j.ovF] &&
+			!j.st.Bundle && (j.st.Format == "" || j.st.Format == "esm") {
 			othersOK := true
 			for _, u := range j.c.Uses {
 				if u != j.ovF && !j.a.set[u] {
